@@ -311,7 +311,7 @@ def run(tier: str) -> dict:
         return {'levels': [], 'inconclusive': [f'py2smt-mini: {e}'], 'errors': []}
     except RuntimeError as e:
         return {'levels': [], 'inconclusive': [str(e)], 'errors': []}
-    res = common.run_levels(levels(tier))
+    res = common.run_levels(common.tiered(levels, tier))
     res['direct_violations'] = viol
     res['extra_queries'] = stats['queries']
     res['extra_solver_s'] = stats['solver_s']
